@@ -196,8 +196,20 @@ def recipe(draw, forms=None):
     r["idx"] = draw(st.integers(0, r["n_in"] - 1))
     r["amount"] = draw(st.sampled_from([0, 1, 100000, 21 * 10**14]))
     if form in ("bare", "p2sh", "p2wsh", "p2sh_p2wsh", "tapscript"):
-        tmpl = draw(st.sampled_from(["grammar", "grammar", "grammar", "if-truth", "family"]))
-        if tmpl == "if-truth":
+        tmpl = draw(st.sampled_from(["grammar", "grammar", "grammar", "if-truth", "family"] + (["budget", "budget"] if tap else [])))
+        if tmpl == "budget":
+            # BIP342 sigops budget: 50 + witness size, minus 50 per executed check with a non-empty signature (whatever the key type).
+            # One witness signature is re-used with OP_DUP so that the budget does not grow with the number of checks.
+            n_checks = draw(st.integers(1, 16))
+            kstyle = draw(st.sampled_from(["xonly", "xonly", "xonly33", "compressed", "short"]))
+            k = draw(st.integers(0, 3))
+            r["unlock"] = [["sig", k, draw(st.sampled_from(["valid", "valid", "valid", "empty", "wrong-msg"])), draw(st.sampled_from(["default", "default", 1, 0x83]))]]
+            r["script"] = [["repeatseq", n_checks, [["op", "OP_DUP"], ["key", k, kstyle], ["op", "OP_CHECKSIGVERIFY"]]], ["op", "OP_DROP"], ["num", 1]]
+            r["codesep"] = 0
+            r["template"] = "budget"
+        if tmpl == "budget":
+            pass
+        elif tmpl == "if-truth":
             # (non-)minimal truth values into IF/NOTIF: MINIMALIF is policy in P2WSH, consensus in tapscript, nothing elsewhere
             r["unlock"] = [["push", draw(st.sampled_from(TRUTHS))]]
             r["script"] = [["op", draw(st.sampled_from(["OP_IF", "OP_NOTIF"]))], ["num", 1], ["op", "OP_ELSE"], ["num", 1], ["op", "OP_ENDIF"]]
@@ -210,7 +222,7 @@ def recipe(draw, forms=None):
             r["unlock"] = draw(st.lists(data_item(), max_size=4))
             r["script"] = draw(script_items(tapscript=tap, depth0=len(r["unlock"])))
         # optionally weave signature checks into the script
-        nsig = draw(st.sampled_from([0, 0, 1, 1, 2]))
+        nsig = draw(st.sampled_from([0, 0, 1, 1, 2])) if tmpl != "budget" else 0
         for s in range(nsig):
             k = draw(st.integers(0, 3))
             op = draw(st.sampled_from(["OP_CHECKSIG", "OP_CHECKSIG", "OP_CHECKSIGVERIFY", "OP_CHECKSIGADD" if tap else "OP_CHECKSIG", "CHECKSIG-NOT"]))
@@ -219,7 +231,7 @@ def recipe(draw, forms=None):
             if op == "OP_CHECKSIGADD":
                 r["unlock"].append(["num", draw(st.integers(0, 2))])
             r["unlock"].append(["sig", k, draw(tap_sig_style() if tap else sig_style()), draw(hashtype_tap() if tap else hashtype_legacy())])
-        r["codesep"] = draw(st.integers(0, 2))
+        r["codesep"] = draw(st.integers(0, 2)) if tmpl != "budget" else 0
     elif form in ("p2pk", "p2pkh", "p2wpkh", "p2sh_p2wpkh"):
         r["key"] = draw(st.integers(0, 3))
         r["key_style"] = draw(key_style())
@@ -233,11 +245,32 @@ def recipe(draw, forms=None):
         n = draw(st.sampled_from([1, 2, 3, 3, 15, 20, 21]))
         m = draw(st.integers(0, min(n, 4)))
         r["n"], r["m"] = n, m
-        r["key_styles"] = [draw(key_style()) for _ in range(min(n, 4))]
-        r["sigs"] = [[draw(st.integers(0, max(0, min(n, 4) - 1))), draw(sig_style()), draw(hashtype_legacy())] for _ in range(draw(st.integers(0, m + 1)))]
-        r["sorted_sigs"] = draw(st.booleans())
+        good = draw(st.integers(0, 2)) > 0  # two thirds of the multisigs have only well-formed keys, so that signature-side rules are reached
+        r["key_styles"] = [draw(st.sampled_from(["compressed", "compressed", "uncompressed"])) if good else draw(key_style()) for _ in range(min(n, 4))]
+        if draw(st.integers(0, 4)) and m <= min(n, 4):
+            # well-shaped: exactly m signatures for an increasing choice of keys, each slot valid / empty / one of the malformed styles
+            ks = sorted(draw(st.lists(st.integers(0, min(n, 4) - 1), min_size=m, max_size=m, unique=True)))
+            pattern = draw(st.sampled_from(["random", "random", "tail-valid", "head-valid", "all-valid", "all-empty"]))
+            cut = draw(st.integers(1, max(1, m - 1)))
+
+            def style(pos):
+                if pattern == "tail-valid":  # the signatures evaluated first (top of the stack) verify, the rest are empty
+                    return "valid" if pos >= m - cut else "empty"
+                if pattern == "head-valid":
+                    return "valid" if pos < cut else "empty"
+                if pattern == "all-valid":
+                    return "valid"
+                if pattern == "all-empty":
+                    return "empty"
+                return draw(st.sampled_from(["valid", "valid", "valid", "empty", "empty", "wrong-msg", "high-s", "lax-pad-r"]))
+
+            r["sigs"] = [[k, style(pos), draw(st.sampled_from([1, 1, 1, 0x81, 3, 0]))] for pos, k in enumerate(ks)]
+            r["sorted_sigs"] = True
+        else:
+            r["sigs"] = [[draw(st.integers(0, max(0, min(n, 4) - 1))), draw(sig_style()), draw(hashtype_legacy())] for _ in range(draw(st.integers(0, m + 1)))]
+            r["sorted_sigs"] = draw(st.booleans())
         r["dummy"] = draw(st.sampled_from(["", "", "00", "01", "51"]))
-        r["verify_variant"] = draw(st.booleans())
+        r["verify_variant"] = draw(st.sampled_from([False, True, "not", "not"]))
         r["m_push"] = draw(st.sampled_from(["op", "op", "nonminimal"]))
     else:  # witness_unknown
         r["wit_version"] = draw(st.integers(1, 16))
@@ -539,7 +572,7 @@ def materialize(r: dict):
                 return cs.push_data(bytes([v]))
             return item_bytes(["num", v])
 
-        script = numpush(m, r["m_push"] == "nonminimal") + b"".join(cs.push_data(k_) for k_ in keys) + numpush(n) + (b"\xaf\x51" if r["verify_variant"] else b"\xae")
+        script = numpush(m, r["m_push"] == "nonminimal") + b"".join(cs.push_data(k_) for k_ in keys) + numpush(n) + (b"\xae\x91" if r["verify_variant"] == "not" else b"\xaf\x51" if r["verify_variant"] else b"\xae")
         dg = v0_digest(script) if form == "ms_p2wsh" else legacy_digest(script)
         sl = list(r["sigs"])
         if r["sorted_sigs"]:
@@ -666,6 +699,8 @@ def program_bytes(items) -> bytes:
     for it in items:
         if it[0] == "repeat":
             out += program_bytes([it[2]]) * it[1]
+        elif it[0] == "repeatseq":
+            out += program_bytes(it[2]) * it[1]
         elif it[0] == "pushdrop":
             out += cs.push_data(b"\xaa" * it[1]) + b"\x75"
         else:
